@@ -28,7 +28,7 @@ type Case struct {
 	Ver   []byte
 	GP    [][2][]byte // nil: nil map
 	GPNil bool
-	MW    string // 'o' / 'f' per middleware
+	MW    string // per middleware: 'o' succeeds, 'f' fails returning (ctx, err), 'n' fails returning (nil, err)
 	Term  int    // 0 none, 1 ok, 2 error
 	In    []byte
 	TIn   []byte
@@ -208,6 +208,14 @@ func validateFn(s0 *session) func(ctx context.Context, database, username, passw
 		s.retain("username", username)
 		switch {
 		case strings.HasPrefix(password, "ok"):
+			if strings.HasPrefix(password, "okhold") && s.holdCh != nil {
+				s.holding.Store(true)
+				select {
+				case <-s.holdCh:
+				case <-time.After(3 * time.Second):
+				}
+				s.holding.Store(false)
+			}
 			return ctx, true, nil
 		case strings.HasPrefix(password, "failok"):
 			// e.g. the comparison succeeded but the account store / audit log could not be reached:
@@ -257,6 +265,9 @@ func buildServer(c *Case, s *session, tlsCfg *tls.Config) (*wire.Server, wire.Pa
 			s.log.add("M" + strconv.Itoa(i))
 			if m == 'f' {
 				return ctx, errors.New("verif: middleware failed")
+			}
+			if m == 'n' { // the idiomatic failure: no context at all
+				return nil, errors.New("verif: middleware failed")
 			}
 			return context.WithValue(ctx, mwKey(i), true), nil
 		}))
@@ -364,6 +375,12 @@ func RunCase(c *Case) *Result {
 	}
 	before := renderKV(userMap)
 	conn := NewConn(segments(c.In, c.Cuts), c.RF, c.WF)
+	if v, ok := c.Extra["wf1"]; ok {
+		// a transient transport fault: exactly one Write call fails, the connection keeps working
+		if k, err := strconv.Atoi(v); err == nil {
+			conn.wonce = k
+		}
+	}
 	conn.rtimeout = c.Extra["rto"] == "1"
 	conn.clientDone = c.EOF
 	if c.Extra["evat"] == "1" {
